@@ -95,7 +95,8 @@ func runKick(c map[string]any, ev map[string]any) error {
 	acc := bitmapOf(c["acc"])
 	tacc := bitmapOf(c["tacc"])
 	ban := intOf(c["ban"])
-	h, err := newHWorld(acc, tacc, false, false)
+	third, _ := c["third"].(string)
+	h, err := newHWorld(hopts{acc: acc, othAcc: tacc, third: third, pacc: bitmapOf(c["pacc"])})
 	if err != nil {
 		return err
 	}
@@ -111,7 +112,12 @@ func runKick(c map[string]any, ev map[string]any) error {
 		} else {
 			h.oth.WaitServerDone(1800 * time.Millisecond)
 		}
+		if h.prot != nil {
+			// anything the request does to other sessions is scheduled together with the target's disconnect
+			h.prot.WaitServerDone(900 * time.Millisecond)
+		}
 	})
+	ev["pclosed"] = h.prot != nil && h.prot.ServerDone()
 	ip := strings.Split(h.oth.Addr, ":")[0]
 	bl, err := verifexport.NewBanFile(filepath.Join(h.w.Config, "Banlist.yaml"))
 	if err != nil {
